@@ -22,6 +22,7 @@ TOL_INV = 1e-10
 REAL = (-2.0, -0.5, 0.0, 0.7, 3.0)
 POS = (0.1, 0.5, 1.0, 2.5, 7.0)
 UNIT = (0.05, 0.3, 0.5, 0.8, 0.97)
+EXTREME = {REAL: (-35.0, -20.0, -9.0, 9.0, 20.0, 35.0), POS: (1e-12, 1e-6, 1e6, 1e12), UNIT: (1e-9, 1.0 - 1e-9)}
 
 TT = "torchtree.distributions.transforms."
 TD = "torch.distributions."
@@ -113,6 +114,26 @@ def check_plain(case):
             bad.append(("evaluate", f"{where}: {type(e).__name__}: {str(e)[:150]}"))
         if len(bad) >= 3:
             break
+    # far from the origin (d = 1): the inverse must not lose the point, the log-Jacobian must stay the derivative
+    if d == 1 and not bad:
+        for v in EXTREME.get(dom, ()):
+            x = torch.tensor([v])
+            try:
+                y = tr(x)
+                if not bool(torch.isfinite(y).all()):
+                    continue  # the forward map itself leaves the floating-point range
+                try:
+                    xr = tr.inv(y)
+                    # what a rounding error of a few ulps in y does to x: ulp(y) / |f'(x)|
+                    fprime = float(tr.log_abs_det_jacobian(x, y).reshape(-1)[0].exp())
+                    cond = 16.0 * 2.3e-16 * float(y.abs().max()) / max(fprime, 1e-300)
+                    if not float((xr - x).abs().max()) <= cond + 1e-9 * max(1.0, abs(v)):
+                        bad.append(("inverse", f"x={v}: inv(forward(x)) = {xr.tolist()} (rounding of y alone "
+                                               f"explains {cond:.1e})"))
+                except NotImplementedError:
+                    pass
+            except Exception as e:
+                bad.append(("evaluate", f"x={v}: {type(e).__name__}: {str(e)[:150]}"))
     # batched points: log-Jacobian per row
     if d >= 1 and not bad:
         X = torch.tensor(pts[: min(len(pts), 7)])
@@ -219,6 +240,24 @@ def check_tree(case):
             prev = pt
             if bad:
                 break
+        if not bad and kind == "shift":
+            # the smooth-maximum variant of the increment transform (constructor option k > 0)
+            for k in (0.5, 2.0, 10.0):
+                trk = type(tr)(model, k)
+                for pt in pts:
+                    x = torch.tensor(pt)
+                    y = trk(x)
+                    xr = trk.inv(y)
+                    if float((xr - x).abs().max()) > TOL_INV * max(1.0, float(x.abs().max())):
+                        bad.append(("inverse", f"k={k} x={pt}: inv(forward(x)) = {xr.tolist()}"))
+                        break
+                    ref = autodiff_logdet(lambda z: trk(z), x, 1)
+                    got = trk.log_abs_det_jacobian(x, y)
+                    if float((got - ref).abs()) > TOL_J:
+                        bad.append(("log_jacobian", f"k={k} x={pt}: reported {float(got)!r} autodiff {float(ref)!r}"))
+                        break
+                if bad:
+                    break
         if not bad:
             # batched
             X = torch.tensor(pts)
